@@ -498,6 +498,26 @@ Proof.
   rewrite E. field. lra.
 Qed.
 
+(* the control variate has the length of the parameters *)
+Lemma qgrads_fold_length p bns : forall k a s, length a = length p ->
+  length (snd (fst (fold_left (qgrads_step p) bns (k, a, s)))) = length p.
+Proof.
+  induction bns as [|[b n] bns IH]; intros k a s L; cbn [fold_left]; [exact L|].
+  unfold qgrads_step at 2. cbn [fst snd]. apply IH. apply vadd_length; [|exact L]. rewrite rscale_length. apply grad_length.
+Qed.
+
+Lemma qclient_grads_length p (mc : mclient) : length (fst (qclient_grads p mc)) = length p.
+Proof. unfold qclient_grads. cbn [fst]. apply qgrads_fold_length. apply vzero_length. Qed.
+
+Lemma sg_q_length p (clients : list mclient) : length (sg_q p clients) = length p.
+Proof.
+  unfold sg_q. destruct clients as [|mc rest]; cbn [map]; [apply vzero_length|]. rewrite rscale_length.
+  assert (G : forall a, length a = length p -> length (fold_left vadd (map fst (map (qclient_grads p) rest)) a) = length p).
+  { induction rest as [|x rest IH]; intros a L; cbn [map fold_left]; [exact L|].
+    apply IH. apply vadd_length; [exact L|apply qclient_grads_length]. }
+  apply G. apply qclient_grads_length.
+Qed.
+
 Section PlainSGD.
 (* the base / client optimizer is plain SGD with learning rate eta (it may carry any state) *)
 Variable eta : Q.
@@ -636,6 +656,298 @@ Proof.
     rewrite E. change 0 with (inject_Z 0). rewrite <- Zlt_Qlt. exact Hpos.
 Qed.
 
+(* multi-round: MimeLite(SGD eta, server lr 1) follows FedAvg(SGD eta clients, SGD(1) server) *)
+Lemma mimelite_runs_eq_fedavg (cohorts : list (list mclient)) : forall p p' s os,
+  (forall g o q, length g = length q -> snd (sopt g o q) =v= vsub q g) ->
+  Forall (fun cl => NoDup (map c_id (map fst cl))) cohorts -> p =v= p' ->
+  exists q s1 q' os1 dgs,
+    iter_rounds (mimelite grad split copt_apply 1) (p, s) cohorts = Some (q, s1) /\
+    fedavg_runs grad split copt_init copt_apply sopt (p', os) (map (map fst) cohorts) = Some (q', os1, dgs) /\ q =v= q'.
+Proof.
+  induction cohorts as [|cl cohorts IH]; intros p p' s os Hsrv ND Ep.
+  - cbn. do 5 eexists. repeat split; eassumption.
+  - inversion ND as [|? ? NDc ND']; subst.
+    destruct (mimelite_sgd_lr1_eq_fedavg p p' s os cl Hsrv NDc Ep) as [q [s1 [q' [os1 [dg [H1 [H2 Eq]]]]]]].
+    destruct (IH q q' s1 os1 Hsrv ND' Eq) as [r [t [r' [t' [dgs [G1 [G2 Er]]]]]]].
+    cbn [iter_rounds map]. rewrite H1. unfold fedavg_runs in *. cbn [fedavg_run].
+    unfold C12_Model.fedavg in H2. rewrite H2, G1, G2. do 5 eexists. repeat split; eassumption.
+Qed.
+
+(* multi-round: every round of Mime(SGD eta, one local step) is one full-batch step *)
+Inductive fullbatch_chain (slr : Q) : list Q -> list (list mclient) -> list Q -> Prop :=
+| fb_nil p : fullbatch_chain slr p [] p
+| fb_cons p cl rest q r : q =v= vadd p (vscale (- (slr * eta)) (sg_q p cl)) ->
+    fullbatch_chain slr q rest r -> fullbatch_chain slr p (cl :: rest) r.
+
+Lemma mime_runs_fullbatch slr (cohorts : list (list mclient)) : forall p s,
+  Forall (fun cl => NoDup (map c_id (map fst cl)) /\ Forall one_step_client cl /\ (0 < total_examples (map fst cl))%Z) cohorts ->
+  exists q s1, iter_rounds (mime grad split copt_apply slr) (p, s) cohorts = Some (q, s1) /\ fullbatch_chain slr p cohorts q.
+Proof.
+  induction cohorts as [|cl cohorts IH]; intros p s H.
+  - cbn. do 2 eexists. split; [reflexivity|constructor].
+  - inversion H as [|? ? [ND [H1 Hpos]] H']; subst.
+    destruct (mime_sgd_one_step slr p s cl ND H1 Hpos (sg_q_length p cl)) as [q [s1 [Hq Eq]]].
+    destruct (IH q s1 H') as [r [t [G1 G2]]].
+    cbn [iter_rounds]. rewrite Hq, G1. do 2 eexists. split; [reflexivity|]. econstructor; eassumption.
+Qed.
+
 End PlainSGD.
 
 End Reductions.
+
+(* ------------------------------------------------------------------ *)
+(* The evaluated instance LS12 satisfies the hypotheses of the reductions *)
+
+Lemma ls_copt_init_proper p p' : p =v= p' -> ls_copt_init p =v= ls_copt_init p'.
+Proof. intros E. unfold ls_copt_init. rewrite (veq_length _ _ E). reflexivity. Qed.
+
+Lemma ls_apply_proper o g g' s s' p p' : g =v= g' -> s =v= s' -> p =v= p' ->
+  fst (sgd_apply o g s p) =v= fst (sgd_apply o g' s' p') /\ snd (sgd_apply o g s p) =v= snd (sgd_apply o g' s' p').
+Proof. apply sgd_apply_proper. Qed.
+
+Lemma ls_apply_length o g s p : length g = length p -> length (snd (sgd_apply o g s p)) = length p.
+Proof. intros L. apply (sgd_apply_length o g s p L). Qed.
+
+(* optax.sgd without momentum: params - lr * grads, whatever the state *)
+Lemma sgd_apply_plain o g t p : o_mom o == 0 -> length g = length p ->
+  snd (sgd_apply o g t p) =v= vadd p (vscale (- o_lr o) g).
+Proof.
+  intros Hm L. unfold sgd_apply. cbn [snd]. rewrite vred_veq.
+  assert (Zs : forall x, length x = length g -> vadd g (vscale (o_mom o) x) =v= g).
+  { intros x Lx. rewrite Hm, vscale_0, Lx. apply vadd_zero_r. }
+  apply vadd_proper; [reflexivity|]. apply vscale_proper; [reflexivity|].
+  destruct (o_nesterov o).
+  - apply Zs. apply vadd_length; [reflexivity|]. rewrite vscale_length. apply fit_length.
+  - apply Zs. apply fit_length.
+Qed.
+
+Lemma sgd1_is_vsub g t p : length g = length p -> snd (sgd_apply (mkSgd 1 0 false) g t p) =v= vsub p g.
+Proof.
+  intros L. rewrite sgd_apply_plain by (try reflexivity; exact L). cbn [o_lr].
+  revert g L; induction p as [|x p IH]; intros [|y g] L; cbn in *; try discriminate; constructor; [ring|]. apply IH. lia.
+Qed.
+
+(* with a plain-SGD server the optimizer state is irrelevant: any two states are related *)
+Definition any_state (a b : list Q) : Prop := True.
+Lemma ls_sopt_plain_proper so : o_mom so == 0 -> forall g g' s s' p p', g =v= g' -> any_state s s' -> p =v= p' ->
+  any_state (fst (ls_sopt so g s p)) (fst (ls_sopt so g' s' p')) /\ snd (ls_sopt so g s p) =v= snd (ls_sopt so g' s' p').
+Proof.
+  intros Hm g g' s s' p p' Eg _ Ep. split; [exact I|]. unfold ls_sopt.
+  destruct (Nat.eq_dec (length g) (length p)) as [L|N].
+  - rewrite (sgd_apply_plain so g s p Hm L).
+    rewrite (sgd_apply_plain so g' s' p' Hm ltac:(rewrite <- (veq_length _ _ Eg), <- (veq_length _ _ Ep); exact L)).
+    apply vadd_proper; [exact Ep|]. apply vscale_proper; [reflexivity|exact Eg].
+  - (* lengths differ: both sides are computed by the same truncating operations *)
+    unfold sgd_apply. cbn [snd]. rewrite !vred_veq.
+    assert (Z : forall x x', length x = length g -> length x' = length g' -> vadd g (vscale (o_mom so) x) =v= vadd g' (vscale (o_mom so) x')).
+    { intros x x' Lx Lx'. rewrite Hm, !vscale_0, Lx, Lx', !vadd_zero_r. exact Eg. }
+    apply vadd_proper; [exact Ep|]. apply vscale_proper; [reflexivity|].
+    destruct (o_nesterov so).
+    + apply Z; (apply vadd_length; [reflexivity|rewrite vscale_length; apply fit_length]).
+    + apply Z; apply fit_length.
+Qed.
+
+Lemma ls_sopt_plain_zero so : o_mom so == 0 -> forall g s q, g =v= vzero (length q) ->
+  snd (ls_sopt so g s q) =v= q /\ any_state (fst (ls_sopt so g s q)) s.
+Proof.
+  intros Hm g s q Z. split; [|exact I]. unfold ls_sopt.
+  assert (L : length g = length q) by (rewrite (veq_length _ _ Z); apply vzero_length).
+  rewrite (sgd_apply_plain so g s q Hm L), Z, vscale_vzero. apply vadd_zero_r.
+Qed.
+
+Notation lsclient := (client (K := key) (B := list example)).
+
+(* FedProx with mu == 0 *)
+Lemma ls_fedprox_mu0_runs co so mu (cohorts : list (list lsclient)) p os : mu == 0 ->
+  Forall (fun cl => NoDup (map c_id cl)) cohorts ->
+  exists q s dgs q' s' dgs',
+    fedprox_runs ls_grad split_key ls_copt_init (ls_copt_apply co) (ls_sopt so) mu (p, os) cohorts = Some (q, s, dgs) /\
+    fedavg_runs ls_grad split_key ls_copt_init (ls_copt_apply co) (ls_sopt so) (p, os) cohorts = Some (q', s', dgs') /\
+    q =v= q' /\ s =v= s' /\ Forall2 (fun dg dg' => map fst dg = map fst dg') dgs dgs'.
+Proof.
+  intros Hm ND.
+  eapply (fedprox_mu0_runs_eq_fedavg ls_grad split_key ls_copt_init (ls_copt_apply co) (ls_sopt so) veq veq);
+    try eassumption; try reflexivity.
+  - apply ls_copt_init_proper.
+  - intros. apply ls_apply_proper; assumption.
+  - intros. apply ls_apply_length; assumption.
+  - intros. apply batch_grad_proper; assumption.
+  - intros. apply batch_grad_length.
+  - intros. apply ls_apply_proper; assumption.
+Qed.
+
+(* HypCluster, one cluster: some example in every round, any SGD-family server optimizer *)
+Lemma ls_hypcluster_runs co so (cohorts : list (list lsclient)) p os :
+  Forall (fun cl => NoDup (map c_id cl)) cohorts -> Forall (fun cl => (0 < total_examples cl)%Z) cohorts ->
+  exists q s q' s' dgs,
+    iter_rounds (hypcluster ls_grad split_key ls_split_pair ls_copt_init (ls_copt_apply co) (ls_sopt so) (fun _ => O)) [(p, os)] cohorts
+      = Some [(q, s)] /\
+    fedavg_runs ls_grad split_key ls_copt_init (ls_copt_apply co) (ls_sopt so) (p, os) (map (map (rekey ls_split_pair)) cohorts)
+      = Some (q', s', dgs) /\ q =v= q' /\ s =v= s'.
+Proof.
+  intros ND Hpos.
+  eapply (hypcluster_runs_eq_fedavg ls_grad split_key ls_split_pair ls_copt_init (ls_copt_apply co) (ls_sopt so) veq veq);
+    try eassumption; try reflexivity.
+  - apply ls_copt_init_proper.
+  - intros. apply ls_apply_proper; assumption.
+  - intros. apply ls_apply_length; assumption.
+  - intros. apply batch_grad_proper; assumption.
+  - intros. apply batch_grad_length.
+  - intros. apply ls_apply_proper; assumption.
+  - left. exact Hpos.
+  - intros a b H. symmetry. exact H.
+  - intros a b c H1 H2. etransitivity; eassumption.
+Qed.
+
+(* HypCluster, one cluster, plain-SGD server: every history, empty rounds included *)
+Lemma ls_hypcluster_runs_plain co so (cohorts : list (list lsclient)) p os : o_mom so == 0 ->
+  Forall (fun cl => NoDup (map c_id cl)) cohorts ->
+  exists q s q' s' dgs,
+    iter_rounds (hypcluster ls_grad split_key ls_split_pair ls_copt_init (ls_copt_apply co) (ls_sopt so) (fun _ => O)) [(p, os)] cohorts
+      = Some [(q, s)] /\
+    fedavg_runs ls_grad split_key ls_copt_init (ls_copt_apply co) (ls_sopt so) (p, os) (map (map (rekey ls_split_pair)) cohorts)
+      = Some (q', s', dgs) /\ q =v= q'.
+Proof.
+  intros Hm ND.
+  destruct (hypcluster_runs_eq_fedavg ls_grad split_key ls_split_pair ls_copt_init (ls_copt_apply co) (ls_sopt so) veq any_state
+              ls_copt_init_proper
+              (fun g g' s s' p p' Eg Es Ep => ls_apply_proper co g g' s s' p p' Eg Es Ep)
+              (fun g s p L => ls_apply_length co g s p L)
+              (fun p p' b u E => batch_grad_proper p p' b u E) (fun p b u => batch_grad_length p b u)
+              (ls_sopt_plain_proper so Hm) cohorts p p os os ND ltac:(reflexivity) I
+              (or_intror (ls_sopt_plain_zero so Hm)) (fun _ => I) (fun _ _ _ => I) (fun _ _ _ _ _ => I))
+    as [q [s [q' [s' [dgs [H1 [H2 [Eq _]]]]]]]].
+  do 5 eexists. split; [exact H1|]. split; [exact H2|exact Eq].
+Qed.
+
+(* MimeLite with plain SGD and server learning rate 1 *)
+Lemma ls_mimelite_runs co (cohorts : list (list (mclient (K := key) (B := list example)))) p s os : o_mom co == 0 ->
+  Forall (fun cl => NoDup (map c_id (map fst cl))) cohorts ->
+  exists q s1 q' os1 dgs,
+    iter_rounds (mimelite ls_grad split_key (ls_copt_apply co) 1) (p, s) cohorts = Some (q, s1) /\
+    fedavg_runs ls_grad split_key ls_copt_init (ls_copt_apply co) (ls_sopt (mkSgd 1 0 false)) (p, os) (map (map fst) cohorts)
+      = Some (q', os1, dgs) /\ q =v= q'.
+Proof.
+  intros Hm ND.
+  apply (mimelite_runs_eq_fedavg ls_grad split_key ls_copt_init (ls_copt_apply co) (ls_sopt (mkSgd 1 0 false)) veq
+           ls_copt_init_proper
+           (fun g g' s s' p p' Eg Es Ep => ls_apply_proper co g g' s s' p p' Eg Es Ep)
+           (fun g s p L => ls_apply_length co g s p L)
+           (fun p p' b u E => batch_grad_proper p p' b u E) (fun p b u => batch_grad_length p b u)
+           (o_lr co) (fun g s p L => sgd_apply_plain co g s p Hm L)
+           cohorts p p s os (fun g o q L => sgd1_is_vsub g o q L) ND).
+  reflexivity.
+Qed.
+
+(* Mime with plain SGD and one local step *)
+Lemma ls_mime_runs co slr (cohorts : list (list (mclient (K := key) (B := list example)))) p s : o_mom co == 0 ->
+  Forall (fun cl => NoDup (map c_id (map fst cl)) /\ Forall one_step_client cl /\ (0 < total_examples (map fst cl))%Z) cohorts ->
+  exists q s1, iter_rounds (mime ls_grad split_key (ls_copt_apply co) slr) (p, s) cohorts = Some (q, s1) /\
+    fullbatch_chain ls_grad split_key (o_lr co) slr p cohorts q.
+Proof.
+  intros Hm H.
+  apply (mime_runs_fullbatch ls_grad split_key (ls_copt_apply co)
+           (fun g s p L => ls_apply_length co g s p L) (fun p b u => batch_grad_length p b u)
+           (o_lr co) (fun g s p L => sgd_apply_plain co g s p Hm L) slr cohorts p s H).
+Qed.
+
+(* ------------------------------------------------------------------ *)
+(* Mime's control variate / server_grads is the gradient over the whole cohort: the
+   mean of the per-batch gradients weighted by their numbers of real examples *)
+Section ControlVariate.
+Context {K U B : Type}.
+Variable grad : list Q -> B -> U -> list Q.
+Variable split : K -> K * U.
+Hypothesis grad_length : forall p b u, length (grad p b u) = length p.
+Notation mclient := (@mclient K B).
+
+(* (number of real rows, gradient of the batch) along the client's key chain *)
+Fixpoint chain (p : list Q) (k : K) (bns : list (B * Z)) : list (Q * list Q) :=
+  match bns with
+  | [] => []
+  | bn :: r => (inject_Z (snd bn), grad p (fst bn) (snd (split k))) :: chain p (fst (split k)) r
+  end.
+Definition cohort_batch_grads (p : list Q) (clients : list mclient) : list (Q * list Q) :=
+  concat (map (fun mc => chain p (c_key (fst mc)) (snd mc)) clients).
+
+Lemma chain_wf p bns : forall k, wf_clients (length p) (chain p k bns).
+Proof. induction bns as [|bn r IH]; intros k; cbn; constructor; [apply grad_length|apply IH]. Qed.
+
+Lemma wsum_cons d c cl : length (snd c) = d -> wf_clients d cl -> wsum d (c :: cl) =v= vadd (wp c) (wsum d cl).
+Proof.
+  intros Lc Hwf. unfold wsum. cbn [map]. apply vsum_cons; [rewrite wp_length; exact Lc|apply wf_map_wp; exact Hwf].
+Qed.
+
+Lemma wsum_app d l1 l2 : wf_clients d l1 -> wf_clients d l2 -> wsum d (l1 ++ l2) =v= vadd (wsum d l1) (wsum d l2).
+Proof. intros H1 H2. unfold wsum. rewrite map_app. apply vsum_app; apply wf_map_wp; assumption. Qed.
+
+Lemma wtot_app l1 l2 : wtot (l1 ++ l2) == wtot l1 + wtot l2.
+Proof. unfold wtot. rewrite map_app. apply qsum_app. Qed.
+
+Lemma qgrads_fold_spec p bns : forall k a s, length a = length p ->
+  snd (fst (fold_left (qgrads_step grad split p) bns (k, a, s))) =v= vadd a (wsum (length p) (chain p k bns)) /\
+  snd (fold_left (qgrads_step grad split p) bns (k, a, s)) == s + wtot (chain p k bns).
+Proof.
+  induction bns as [|[b n] r IH]; intros k a s L.
+  - cbn [fold_left fst snd chain]. split; [|unfold wtot; cbn; ring].
+    unfold wsum. cbn [map]. rewrite vsum_nil, <- L. symmetry. apply vadd_zero_r.
+  - cbn [fold_left chain fst snd]. unfold qgrads_step at 2 4. cbn [fst snd].
+    set (g := grad p b (snd (split k))).
+    assert (Lg : length (rscale (inject_Z n) g) = length p) by (rewrite rscale_length; apply grad_length).
+    destruct (IH (fst (split k)) (vadd (rscale (inject_Z n) g) a) (s + inject_Z n)
+                 (vadd_length _ _ _ Lg L)) as [E1 E2].
+    split.
+    + rewrite E1. rewrite (wsum_cons (length p) (inject_Z n, g)) by (try apply grad_length; apply chain_wf).
+      unfold wp. cbn [fst snd]. rewrite rscale_vscale.
+      rewrite (vadd_comm (vscale (inject_Z n) g) a). apply vadd_assoc.
+    + rewrite E2. unfold wtot. cbn [map fst qsum]. ring.
+Qed.
+
+Lemma qclient_grads_spec p (mc : mclient) :
+  fst (qclient_grads grad split p mc) =v= wsum (length p) (chain p (c_key (fst mc)) (snd mc)) /\
+  snd (qclient_grads grad split p mc) == wtot (chain p (c_key (fst mc)) (snd mc)).
+Proof.
+  unfold qclient_grads. cbn [fst snd].
+  destruct (qgrads_fold_spec p (snd mc) (c_key (fst mc)) (vzero (length p)) 0 (vzero_length _)) as [E1 E2].
+  split; [|rewrite E2; ring]. rewrite E1.
+  pose proof (vadd_zero_l (wsum (length p) (chain p (c_key (fst mc)) (snd mc)))) as Z.
+  rewrite (wsum_length (length p) _ (chain_wf p (snd mc) (c_key (fst mc)))) in Z. exact Z.
+Qed.
+
+Lemma cohort_wf p (clients : list mclient) : wf_clients (length p) (cohort_batch_grads p clients).
+Proof.
+  unfold cohort_batch_grads, wf_clients. induction clients as [|mc l IH]; cbn; [constructor|].
+  apply Forall_app. split; [apply chain_wf|exact IH].
+Qed.
+
+Lemma cohort_fold_spec p (l : list mclient) : forall a s, length a = length p ->
+  fold_left vadd (map fst (map (qclient_grads grad split p) l)) a =v= vadd a (wsum (length p) (cohort_batch_grads p l)) /\
+  fold_left Qplus (map snd (map (qclient_grads grad split p) l)) s == s + wtot (cohort_batch_grads p l).
+Proof.
+  induction l as [|mc l IH]; intros a s L.
+  - cbn. split; [|unfold wtot; cbn; ring]. unfold cohort_batch_grads, wsum. cbn. rewrite vsum_nil, <- L. symmetry. apply vadd_zero_r.
+  - cbn [map fold_left]. destruct (qclient_grads_spec p mc) as [C1 C2].
+    assert (Lc : length (fst (qclient_grads grad split p mc)) = length p).
+    { rewrite (veq_length _ _ C1). apply wsum_length. apply chain_wf. }
+    destruct (IH (vadd a (fst (qclient_grads grad split p mc))) (s + snd (qclient_grads grad split p mc))
+                 (vadd_length _ _ _ L Lc)) as [E1 E2].
+    unfold cohort_batch_grads in *. cbn [map concat]. split.
+    + rewrite E1, C1. rewrite (wsum_app (length p)) by (try apply chain_wf; apply (cohort_wf p l)). apply vadd_assoc.
+    + rewrite E2, C2, wtot_app. ring.
+Qed.
+
+Lemma sg_q_is_cohort_gradient p (clients : list mclient) :
+  sg_q grad split p clients =v= wmean_batch (length p) (cohort_batch_grads p clients).
+Proof.
+  unfold sg_q, wmean_batch. destruct clients as [|mc rest].
+  - cbn [map]. unfold cohort_batch_grads, wsum. cbn. rewrite vsum_nil, vscale_vzero. reflexivity.
+  - cbn [map]. destruct (qclient_grads_spec p mc) as [C1 C2].
+    assert (Lc : length (fst (qclient_grads grad split p mc)) = length p).
+    { rewrite (veq_length _ _ C1). apply wsum_length. apply chain_wf. }
+    destruct (cohort_fold_spec p rest (fst (qclient_grads grad split p mc)) (snd (qclient_grads grad split p mc)) Lc) as [E1 E2].
+    rewrite rscale_vscale. unfold cohort_batch_grads in *. cbn [map concat].
+    apply vscale_proper.
+    + apply inv_weight_proper. rewrite E2, C2, wtot_app. reflexivity.
+    + rewrite E1, C1. symmetry. apply (wsum_app (length p)); [apply chain_wf|apply (cohort_wf p rest)].
+Qed.
+End ControlVariate.
